@@ -939,7 +939,7 @@ def make_pptx(slides, rel_order=None):
     return buf
 
 
-def make_epub(opf_dir, docs, spine):
+def make_epub(opf_dir, docs, spine, nonlinear=(), opf_ns=True):
     """docs: list of dicts {id, path (from archive root, or None = file missing), href (as written in the manifest, or
     None = not in the manifest), body}; manifest items are written in docs order; spine: list of ids."""
     buf = io.BytesIO()
@@ -951,8 +951,8 @@ def make_epub(opf_dir, docs, spine):
                    f'full-path="{opf}" media-type="application/oebps-package+xml"/></rootfiles></container>')
         man = "".join(f'<item id="{d["id"]}" href="{d["href"]}" media-type="application/xhtml+xml"/>'
                       for d in docs if d["href"] is not None)
-        sp = "".join(f'<itemref idref="{i}"/>' for i in spine)
-        z.writestr(opf, '<?xml version="1.0"?><package xmlns="http://www.idpf.org/2007/opf" version="3.0">'
+        sp = "".join(f'<itemref idref="{i}"' + (' linear="no"' if k_ in nonlinear else "") + "/>" for k_, i in enumerate(spine))
+        z.writestr(opf, '<?xml version="1.0"?><package' + (' xmlns="http://www.idpf.org/2007/opf"' if opf_ns else "") + ' version="3.0">'
                    '<metadata xmlns:dc="http://purl.org/dc/elements/1.1/"><dc:title>T</dc:title></metadata>'
                    f'<manifest>{man}</manifest><spine>{sp}</spine></package>')
         for d in docs:
@@ -1338,6 +1338,171 @@ def xhtml_doc(rng, d_, j):
     x = tok(); want.add(x); body.append(f"<p>{x} last</p>")      # text after whatever came before
     return ('<html xmlns="http://www.w3.org/1999/xhtml"><head>' + "".join(head) + "</head><body>" + "".join(body)
             + "</body></html>"), want, in_table
+
+
+# ----------------------------------------------------------------------------- (b) PPTX slide order / EPUB spine
+def order_inventory(ctx):
+    """Fail-closed shape inventory for coq/C03/Order.v."""
+    import ast, inspect, textwrap
+    from sharepoint2text.parsing.extractors.ms_modern import pptx_extractor as px_
+    from sharepoint2text.parsing.extractors import epub_extractor as ex_
+    from sharepoint2text.parsing.extractors.util import zip_utils
+    src = ast.parse(textwrap.dedent(inspect.getsource(px_._PptxContext._compute_slide_order)))
+    fors = [n for n in ast.walk(src) if isinstance(n, ast.For)]
+    sorted_calls = [n for n in ast.walk(src) if isinstance(n, ast.Call) and isinstance(n.func, ast.Name) and n.func.id in ("sorted", "reversed", "set")]
+    over_findall = any(isinstance(f.iter, ast.Call) and isinstance(f.iter.func, ast.Attribute) and f.iter.func.attr == "findall" for f in fors)
+    strs = sorted({n.value for n in ast.walk(src) if isinstance(n, ast.Constant) and isinstance(n.value, str) and len(n.value) < 12})
+    ctx.obligation("inventory:pptx _compute_slide_order walks sldIdLst.findall() in document order (no sort/set), two loops, "
+                   "path rules slides/ ../ ppt/", len(fors) == 2 and over_findall and not sorted_calls
+                   and all(x in strs for x in ["slide", "slides/", "../", "ppt/", "id", "target", "type"]), f"fors={len(fors)} strs={strs}")
+    sp = ast.parse(textwrap.dedent(inspect.getsource(ex_._EpubContext._parse_spine)))
+    attrs = sorted({n.value for n in ast.walk(sp) if isinstance(n, ast.Constant) and isinstance(n.value, str)} - {sp.body[0].body[0].value.value})
+    ctx.obligation("inventory:epub _parse_spine reads only idref of itemref (linear is not consulted), document order",
+                   "idref" in attrs and "linear" not in attrs and not [n for n in ast.walk(sp) if isinstance(n, ast.Call)
+                                                                        and isinstance(n.func, ast.Name) and n.func.id in ("sorted", "reversed", "set")],
+                   str(attrs))
+    rs = ast.parse(textwrap.dedent(inspect.getsource(zip_utils.resolve_part_name)))
+    consts = sorted({n.value for n in ast.walk(rs) if isinstance(n, ast.Constant) and isinstance(n.value, str) and len(n.value) <= 2})
+    ctx.obligation("inventory:resolve_part_name uses exactly the segment constants '/', '.', '..'", consts == [".", "..", "/"], str(consts))
+
+
+def run_order(ctx):
+    import types
+    import xml.etree.ElementTree as ET
+    from sharepoint2text.parsing.extractors.ms_modern import pptx_extractor as px_
+    from sharepoint2text.parsing.extractors import epub_extractor as ex_
+    from sharepoint2text.parsing.extractors.util import zip_utils
+    rng = ctx.rng
+    order_inventory(ctx)
+    pre = ("From Coq Require Import ZArith List.\nFrom S2T Require Import Lib.PyStr C03.Lib C03.Model C03.Order C03.Corr.\n"
+           "Import ListNotations.\n")
+    # ---- _compute_slide_order through the real method on generated rels / presentation parts
+    c1, i1 = [], []
+    ids = ["rId1", "rId2", "rId3", "rId4", "rId2", "", "rId10"]
+    types_ = [NS_R + "/slide", NS_R + "/slide", NS_R + "/slide", NS_R + "/slideMaster", NS_R + "/notesSlide", NS_R + "/theme",
+              "HTTP://X/SLIDE", ""]
+    targets = ["slides/slide1.xml", "slides/slide2.xml", "../slides/slide3.xml", "slide4.xml", "/ppt/slides/slide5.xml",
+               "../a/../b.xml", "", "slideMasters/slideMaster1.xml", "slides/slide1.xml"]
+    for i in range(ctx.n(250, 2500)):
+        rels = [(rng.choice(ids), rng.choice(types_), rng.choice(targets)) for _ in range(rng.randint(0, 6))]
+        sld = [rng.choice(ids + [None, "rId99"]) for _ in range(rng.randint(0, 6))]
+        if rng.random() < 0.5:      # a regular deck: unique ids, all slides
+            n = rng.randint(1, 5)
+            rr = rng.sample(range(2, 12), n)
+            rels = [(f"rId{r_}", NS_R + "/slide", f"slides/slide{rng.randint(1, 9)}.xml") for r_ in rr] + [("rId1", NS_R + "/slideMaster", "slideMasters/slideMaster1.xml")]
+            rng.shuffle(rels)
+            sld = [f"rId{r_}" for r_ in rng.sample(rr, n)]
+        rx_ = ET.fromstring(f'<Relationships xmlns="{REL}">' + "".join(f'<Relationship Id="{a}" Type="{b}" Target="{c_}"/>' for a, b, c_ in rels) + "</Relationships>")
+        pr = ET.fromstring(f'<p:presentation xmlns:p="{NS_P}" xmlns:r="{NS_R}"><p:sldMasterIdLst/><p:sldIdLst>'
+                           + "".join(f'<p:sldId id="{256 + k_}"' + (f' r:id="{x}"' if x is not None else "") + "/>" for k_, x in enumerate(sld))
+                           + "</p:sldIdLst></p:presentation>")
+        got = px_._PptxContext._compute_slide_order(types.SimpleNamespace(_presentation_rels_root=rx_, _presentation_root=pr))
+        parsed = zip_utils.parse_relationships(rx_)
+        c1.append(pair(coq_list([f"(mkRel {coq_str(r_['id'])} {coq_str(r_['type'].lower())} {coq_str(r_['target'])})" for r_ in parsed]),
+                       coq_list([coq_opt(x, coq_str) for x in sld]), cstrs(got)))
+        i1.append((rels, sld))
+        ctx.case(("slide-order", repr(rels), repr(sld)), len(got) >= 2, kind="order:pptx")
+        # property oracle: with unique relationship ids, the order is the sldIdLst order of the resolvable entries
+        if len({a for a, _, _ in rels}) == len(rels):
+            m_ = {a: c_ for a, b, c_ in rels if a and c_ and "slide" in b.lower()}
+            want = [m_[x] for x in sld if x and x in m_]
+            if [g.split("/")[-1] for g in got] != [w.split("/")[-1] for w in want]:
+                ctx.finding("order:pptx:slide-order-not-sldIdLst-order", f"_compute_slide_order: {got} for sldIdLst {sld}",
+                            {"rels": rels, "sldIdLst": sld, "got": got})
+    ok, failing, log = coq_eval_shards(ctx, "sorder", pre, "slide_order_case", c1, shard=300,
+                                       ty="list relationship * list (option str) * list str")
+    ctx.traces += len(c1)
+    ctx.obligation("correspondence:pptx _compute_slide_order model==implementation", ok and not failing,
+                   (f"{len(failing)} disagreements, first: {i1[failing[0]]!r} " if failing else "") + log[:600])
+    # ---- resolve_part_name
+    c2 = []
+    bases = ["", "OEBPS/", "a/b/", "a//b/", "/x/", "OEBPS", "a/b", "./a/", "../a/"]
+    segs = ["..", ".", "", "text", "c1.xhtml", "x y", "...", "a.b"]
+    for i in range(ctx.n(400, 4000)):
+        b = rng.choice(bases)
+        tg = ("/" if rng.random() < 0.2 else "") + "/".join(rng.choice(segs) for _ in range(rng.randint(0, 5)))
+        c2.append(pair(coq_str(b), coq_str(tg), coq_str(zip_utils.resolve_part_name(b, tg))))
+        ctx.case(("resolve", b, tg), ".." in tg, kind="order:resolve")
+    ok, failing, log = coq_eval_shards(ctx, "resolve", pre, "resolve_case", c2, shard=400, ty="str * str * str")
+    ctx.obligation("correspondence:zip_utils.resolve_part_name model==implementation", ok and not failing,
+                   (f"{len(failing)} disagreements, first: {c2[failing[0]][:300] if failing else ''} " + log)[:600])
+    # ---- EPUB: manifest / spine / chapter gate / spine loop on generated packages, inputs read off the parsed OPF
+    c3, i3 = [], []
+    for i in range(ctx.n(120, 1200)):
+        opf_dir = rng.choice(["", "OEBPS", "a/b"])
+        pre_ = opf_dir + "/" if opf_dir else ""
+        k = rng.randint(1, 6)
+        docs = []
+        for j in range(1, k + 1):
+            kind = rng.choice(["ok", "ok", "ok", "missing-file", "not-in-manifest", "css", "dup-id", "no-href"])
+            name = f"c{j}.xhtml" if kind != "css" else f"c{j}.css"
+            st = rng.choice(["plain", "dot", "sub", "up", "abs"])
+            href, path = {"plain": (name, pre_ + name), "dot": ("./" + name, pre_ + name), "sub": ("t/" + name, pre_ + "t/" + name),
+                          "up": ("x/../" + name, pre_ + name), "abs": ("/r/" + name, "r/" + name)}[st]
+            docs.append({"id": f"c{j}" if kind != "dup-id" or j == 1 else "c1", "href": None if kind == "not-in-manifest" else ("" if kind == "no-href" else href),
+                         "path": None if kind == "missing-file" else path, "body": f"<p>Ch{j}x text</p>", "kind": kind,
+                         "media": rng.choice(["application/xhtml+xml", "application/xhtml+xml", "text/css", "text/html", ""])})
+        spine = [rng.choice(docs)["id"] for _ in range(rng.randint(1, 7))] + ([""] if rng.random() < 0.1 else []) + (["nope"] if rng.random() < 0.2 else [])
+        rng.shuffle(spine)
+        nonlinear = {x for x in range(len(spine)) if rng.random() < 0.3}
+        opf_ns = rng.random() < 0.85
+        # make_epub writes media-type application/xhtml+xml for every item: patch the media types afterwards
+        data = make_epub(opf_dir, docs, spine, nonlinear, opf_ns).getvalue()
+        zin = zipfile.ZipFile(io.BytesIO(data)); out = io.BytesIO()
+        opf_name = pre_ + "content.opf"
+        with zipfile.ZipFile(out, "w") as zo:
+            for nm in zin.namelist():
+                b_ = zin.read(nm)
+                if nm == opf_name:
+                    s_ = b_.decode()
+                    for d in docs:
+                        if d["href"] is not None:
+                            s_ = s_.replace(f'href="{d["href"]}" media-type="application/xhtml+xml"', f'href="{d["href"]}" media-type="{d["media"]}"', 1)
+                    b_ = s_.encode()
+                zo.writestr(nm, b_)
+        data = out.getvalue()
+        try:
+            cont = next(ex_.read_epub(io.BytesIO(data), "x.epub"))
+            ectx = ex_._EpubContext(io.BytesIO(data))
+        except Exception:  # noqa
+            continue
+        root = ectx._opf_root
+        man = root.find("opf:manifest", ex_.NS)
+        man = man if man is not None else root.find("{*}manifest")
+        spn = root.find("opf:spine", ex_.NS)
+        spn = spn if spn is not None else root.find("{*}spine")
+        it = lambda e: f"(mkItem {coq_str(e.get('id', ''))} {coq_str(e.get('href', ''))} {coq_str(e.get('media-type', ''))})"
+        ns_items = [] if man is None else [it(e) for e in man.findall("opf:item", ex_.NS)]
+        any_items = [] if man is None else [it(e) for e in man.findall("{*}item")]
+        ns_refs = [] if spn is None else [e.get("idref", "") for e in spn.findall("opf:itemref", ex_.NS)]
+        any_refs = [] if spn is None else [e.get("idref", "") for e in spn.findall("{*}itemref")]
+        members = zipfile.ZipFile(io.BytesIO(data)).namelist()
+        texts = {}
+        for ch in cont.chapters:
+            texts[ch.href] = ch.text
+        c3.append(pair(cstrs(members), coq_list([pair(coq_str(a), coq_str(b)) for a, b in texts.items()]), coq_str(ectx.opf_dir),
+                       coq_list(ns_items), coq_list(any_items), cstrs(ns_refs), cstrs(any_refs),
+                       coq_list([pair(coq_Z(ch.chapter_number), coq_str(ch.text)) for ch in cont.chapters])))
+        i3.append((opf_dir, spine, [(d["id"], d["href"], d["path"], d["media"], d["kind"]) for d in docs], sorted(nonlinear), opf_ns))
+        ectx.close()
+        ctx.case(("epub-order", repr(i3[-1])), len(cont.chapters) >= 2, kind="order:epub")
+        # property oracle: chapter numbers are spine positions, non-linear items included, strictly increasing
+        nums = [ch.chapter_number for ch in cont.chapters]
+        eff = [x for x in spine if x]
+        if not all(a < b for a, b in zip(nums, nums[1:])) or any(n_ < 1 or n_ > len(eff) for n_ in nums):
+            ctx.finding("order:epub:chapter-numbers-not-spine-positions", f"EPUB chapter numbers {nums} for spine {spine}",
+                        {"spine": spine, "docs": i3[-1][2]})
+        for ch in cont.chapters:
+            j_ = ch.text.split("x")[0].replace("Ch", "") if ch.text.startswith("Ch") else None
+            d_ = next((d for d in reversed(docs) if d["id"] == eff[ch.chapter_number - 1] and d["href"] not in (None, "")), None)
+            if j_ and d_ is not None and d_["path"] is not None and not d_["path"].endswith(f"c{j_}.xhtml"):
+                ctx.finding("order:epub:chapter-text-from-other-spine-item", f"EPUB chapter {ch.chapter_number} (spine item "
+                            f"{eff[ch.chapter_number - 1]!r}) carries the text of c{j_}.xhtml", {"spine": spine, "docs": i3[-1][2]})
+    ok, failing, log = coq_eval_shards(ctx, "epubo", pre, "epub_case", c3, shard=100,
+                                       ty="list str * list (str * str) * str * list manifest_item * list manifest_item * list str * list str * list (Z * str)")
+    ctx.traces += len(c3)
+    ctx.obligation("correspondence:epub manifest/spine/chapter gate/spine loop model==implementation", ok and not failing,
+                   (f"{len(failing)} disagreements, first: {i3[failing[0]]!r} " if failing else "") + log[:600])
 
 
 # ----------------------------------------------------------------------------- (c) end to end
@@ -1844,6 +2009,7 @@ def run(ctx):
     run_odt(ctx)
     odf_inventory(ctx)
     run_odf(ctx)
+    run_order(ctx)
     run_end_to_end(ctx)
 
 
